@@ -129,6 +129,9 @@ func writeFacts(repo, out string) error {
 	//  notes:    interrupt = { [nil function: return]; defer func(){ if c := recover(); c != nil { rt.halting, rt.haltValue = true, c; panic(c) } }(); function() }
 	//  tryLets:  the deferred function of tryCatchEvaluate is `if c := recover(); c != nil { if rt.halting { if samePanic(c, rt.haltValue) { panic(c) } … } … }`
 	pollsVia, pollCount, notes, tryLets := true, 0, false, false
+	// F9: loops of built-ins that poll the channel themselves (rt.pollInterrupt as a statement of the loop body):
+	// function -> number of such loops
+	nativePolls := map[string]int{}
 
 	for _, f := range files {
 		base := filepath.Base(f)
@@ -145,6 +148,27 @@ func writeFacts(repo, out string) error {
 				continue
 			}
 			name := fd.Name.Name
+			ast.Inspect(fd.Body, func(x ast.Node) bool {
+				var body *ast.BlockStmt
+				switch l := x.(type) {
+				case *ast.ForStmt:
+					body = l.Body
+				case *ast.RangeStmt:
+					body = l.Body
+				default:
+					return true
+				}
+				for _, st := range body.List {
+					if es, ok := st.(*ast.ExprStmt); ok {
+						if c, ok := es.X.(*ast.CallExpr); ok {
+							if se, ok := c.Fun.(*ast.SelectorExpr); ok && se.Sel.Name == "pollInterrupt" && len(c.Args) == 1 {
+								nativePolls[name]++
+							}
+						}
+					}
+				}
+				return true
+			})
 			ast.Inspect(fd.Body, func(x ast.Node) bool {
 				cc, isCC := x.(*ast.CommClause)
 				if !isCC || cc.Comm == nil || !hasSel(cc.Comm, "Interrupt") {
@@ -463,6 +487,19 @@ func writeFacts(repo, out string) error {
 	fmt.Fprintf(&b, "def interruptNotesPanic : Bool := %v\n\n", notes)
 	fmt.Fprintf(&b, "def tryLetsHaltPass : Bool := %v\n\n", tryLets)
 	fmt.Fprintf(&b, "def copyFreshHandle : Bool := %v\n\n", copyFresh)
+	np := make([]string, 0)
+	for n := range nativePolls {
+		np = append(np, n)
+	}
+	sort.Strings(np)
+	b.WriteString("def nativeLoopPolls : List (String × Nat) := [")
+	for i, n := range np {
+		if i > 0 {
+			b.WriteString(", ")
+		}
+		fmt.Fprintf(&b, "(%q, %d)", n, nativePolls[n])
+	}
+	b.WriteString("]\n\n")
 	b.WriteString("def evaluatorLoops : List (String × Bool) := [")
 	for i, l := range loops {
 		if i > 0 {
